@@ -34,6 +34,12 @@ func as4(ip net.IP) (b [4]byte, ok bool) {
 type local struct {
 	r          *mon.Run
 	e, n, succ int64
+	// the previous subnet of this worker: every other case converts it first through the SAME *net.IPNet value,
+	// whose fields are then reassigned (a caller looping with one variable)
+	prevIP   net.IP
+	prevMask net.IPMask
+	prevSet  bool
+	cases    int
 }
 
 func (l *local) flush(key string) {
@@ -250,6 +256,18 @@ func probes(rng *rand.Rand, base []byte, ones int) [][]byte {
 
 func (l *local) subnetCase(rng *rand.Rand, ip net.IP, mask net.IPMask) {
 	c := map[string]any{"kind": "subnet", "ip": []byte(ip), "mask": []byte(mask), "mask_nil": mask == nil}
+	l.cases++
+	reuse := l.prevSet && l.cases%2 == 0
+	prevIP, prevMask := l.prevIP, l.prevMask
+	if reuse {
+		c["prev_ip"], c["prev_mask"], c["prev_mask_nil"], c["reused"] = []byte(prevIP), []byte(prevMask), prevMask == nil, true
+	}
+	l.prevIP, l.prevMask, l.prevSet = ip, mask, true
+	note := ""
+	if reuse {
+		note = fmt.Sprintf(" (the same *net.IPNet value had been converted before with IP %x and mask %x)", []byte(prevIP), []byte(prevMask))
+	}
+	viol := func(sig, desc string) { l.viol(sig, desc+note, c) }
 	type call struct {
 		name string
 		f    func(n *net.IPNet) (netip.Prefix, error)
@@ -262,7 +280,15 @@ func (l *local) subnetCase(rng *rand.Rand, ip net.IP, mask net.IPMask) {
 	}
 	_, ipIs4 := as4(ip)
 	for _, cl := range calls {
-		n := &net.IPNet{IP: slices.Clone(ip), Mask: slices.Clone(mask)}
+		n := &net.IPNet{}
+		if reuse {
+			n.IP, n.Mask = slices.Clone(prevIP), slices.Clone(prevMask)
+			if prevMask == nil {
+				n.Mask = nil
+			}
+			_, _ = cl.f(n)
+		}
+		n.IP, n.Mask = slices.Clone(ip), slices.Clone(mask)
 		if mask == nil {
 			n.Mask = nil
 		}
@@ -270,14 +296,17 @@ func (l *local) subnetCase(rng *rand.Rand, ip net.IP, mask net.IPMask) {
 		backing := n.IP // the caller's bytes: other values may share them
 		p, err := cl.f(n)
 		sig := fmt.Sprintf("%s:%x/%x", cl.name, []byte(ip), []byte(mask))
+		if reuse {
+			sig = fmt.Sprintf("%s:after:%x/%x", sig, []byte(prevIP), []byte(prevMask))
+		}
 		if !bytes.Equal(backing, ip) || !bytes.Equal(n.Mask, mask) {
-			l.viol("mutates:"+sig, fmt.Sprintf("%s(%x mask %x) overwrote the bytes of its argument: IP bytes now %x, mask %x", cl.name, []byte(ip), []byte(mask), []byte(backing), []byte(n.Mask)), c)
+			viol("mutates:"+sig, fmt.Sprintf("%s(%x mask %x) overwrote the bytes of its argument: IP bytes now %x, mask %x", cl.name, []byte(ip), []byte(mask), []byte(backing), []byte(n.Mask)))
 			continue
 		}
 		if !canonical(mask) {
 			l.n++
 			if err == nil {
-				l.viol("noncanon:"+sig, fmt.Sprintf("%s(%x mask %x (nil=%v)) accepted a mask that is not a contiguous run of ones: %v", cl.name, []byte(ip), []byte(mask), mask == nil, p), c)
+				viol("noncanon:"+sig, fmt.Sprintf("%s(%x mask %x (nil=%v)) accepted a mask that is not a contiguous run of ones: %v", cl.name, []byte(ip), []byte(mask), mask == nil, p))
 			}
 			continue
 		}
@@ -285,7 +314,7 @@ func (l *local) subnetCase(rng *rand.Rand, ip net.IP, mask net.IPMask) {
 			continue
 		}
 		if !p.IsValid() {
-			l.viol("invalidprefix:"+sig, fmt.Sprintf("%s(%x mask %x) succeeded with the invalid prefix", cl.name, []byte(ip), []byte(mask)), c)
+			viol("invalidprefix:"+sig, fmt.Sprintf("%s(%x mask %x) succeeded with the invalid prefix", cl.name, []byte(ip), []byte(mask)))
 			continue
 		}
 		// the family of the converted address
@@ -301,7 +330,7 @@ func (l *local) subnetCase(rng *rand.Rand, ip net.IP, mask net.IPMask) {
 			alen = 4
 		}
 		if p.Addr().BitLen() != alen*8 {
-			l.viol("family:"+sig, fmt.Sprintf("%s(%x mask %x) = %v, not of the requested family", cl.name, []byte(ip), []byte(mask), p), c)
+			viol("family:"+sig, fmt.Sprintf("%s(%x mask %x) = %v, not of the requested family", cl.name, []byte(ip), []byte(mask), p))
 			continue
 		}
 		if len(mask) != alen {
@@ -343,7 +372,7 @@ func (l *local) subnetCase(rng *rand.Rand, ip net.IP, mask net.IPMask) {
 				xa = netip.AddrFrom16([16]byte(x))
 			}
 			if p.Contains(xa) != refNet.Contains(net.IP(x)) {
-				l.viol("membership:"+sig, fmt.Sprintf("%s(%x mask %x) = %v: Contains(%v)=%v but the *net.IPNet says %v", cl.name, []byte(ip), []byte(mask), p, xa, p.Contains(xa), refNet.Contains(net.IP(x))), c)
+				viol("membership:"+sig, fmt.Sprintf("%s(%x mask %x) = %v: Contains(%v)=%v but the *net.IPNet says %v", cl.name, []byte(ip), []byte(mask), p, xa, p.Contains(xa), refNet.Contains(net.IP(x))))
 				break
 			}
 		}
@@ -424,6 +453,10 @@ func TestConv(t *testing.T) {
 		MNil bool   `json:"mask_nil"`
 		Zone string `json:"zone"`
 		Port int    `json:"port"`
+		PIP  []byte `json:"prev_ip"`
+		PM   []byte `json:"prev_mask"`
+		PMN  bool   `json:"prev_mask_nil"`
+		Re   bool   `json:"reused"`
 	}
 	if ok, err := mon.ReplayCase("conv", &rc); ok {
 		if err != nil {
@@ -443,6 +476,12 @@ func TestConv(t *testing.T) {
 			m := net.IPMask(rc.Mask)
 			if rc.MNil {
 				m = nil
+			}
+			if rc.Re {
+				l.prevIP, l.prevMask, l.prevSet, l.cases = net.IP(rc.PIP), net.IPMask(rc.PM), true, 1
+				if rc.PMN {
+					l.prevMask = nil
+				}
 			}
 			l.subnetCase(r.Rand(1), ip, m)
 		}
